@@ -234,9 +234,16 @@ class CNLTransformer(Transformer):
         name: str = elem[0].lower()
         tail_attributes: list[(str, ValueComponent)] = elem[2] if elem[2] else []
         defined_entities: list[EntityComponent] = []
+        key_name, key_origin = Utility.DEFAULT_ATTRIBUTE, AttributeOrigin(name)
+        try:
+            # a concept declared before with a single key: the values are values of that key
+            keys = SignatureManager.clone_signature(name).get_keys()
+            if len(keys) == 1:
+                key_name, key_origin = keys[0].get_name(), keys[0].origin
+        except EntityNotFound:
+            pass
         for value in elem[1]:
-            defined_entities.append(EntityComponent(name, '', [], [AttributeComponent(Utility.DEFAULT_ATTRIBUTE,
-                                                                                      value, AttributeOrigin(name))]))
+            defined_entities.append(EntityComponent(name, '', [], [AttributeComponent(key_name, value, key_origin)]))
         for name, values in tail_attributes:
             if len(values) != len(defined_entities):
                 raise CompilationError("Compounded tail has size different from values declared", meta.line)
